@@ -365,6 +365,16 @@ pub fn check(tier: &str) -> i32 {
         run: Box::new(move |i, tr| run_case(&[[Op::Browse, Op::Register, Op::ResolveHost][(i % 3) as usize], OPS[(i / 3) as usize]], if thorough { 130_000 } else { 30_000 }, tr)),
     };
     rep.run_part(&long, Duration::from_secs(if thorough { 1800 } else { 40 }));
+    // the interface check after its interval was changed at run time
+    let ipops = [Op::IpCheck0, Op::IpCheck1, Op::IpCheckDefault, Op::IpCheckHuge, Op::Idle100, Op::Idle1s];
+    let ipc = FnPart {
+        name: "interface-check-after-interval-changes".into(),
+        rule: "every ordered pair of [interval 0, 1 s, default, huge, idle 0.1 s, idle 1 s] followed by an address appearing on a new interface, 8 s of silence; same comparison (the IpAdd event must come when the check is due)".into(),
+        n: 36,
+        describe: Box::new(move |i| format!("{:?}", [ipops[(i / 6) as usize], ipops[(i % 6) as usize], Op::AddrAdded])),
+        run: Box::new(move |i, tr| run_case(&[ipops[(i / 6) as usize], ipops[(i % 6) as usize], Op::AddrAdded], 8_000, tr)),
+    };
+    rep.run_part(&ipc, Duration::from_secs(60));
     // cache-flush histories under a live browse and a live host-name search
     let (fops, fdepth, fhor): (usize, usize, u64) = if thorough { (8, 5, 6_000) } else { (5, 3, 3_000) };
     let mut nf = 0u64;
